@@ -203,30 +203,35 @@ def valueAt (top : V × V) : Tree T → Path → Path → Option (V × V)
     let v := o.bridge s m _e (!b) top (o.noise pre false) (o.noise pre true)
     valueAt v child p (pre ++ [b])
 
+/-- going up: the longest prefix of `p` (possibly `p` itself) that is cached; `[]` (the top, always available) otherwise -/
+def cacheUp {V : Type} (ch : Cache V) : Nat → Path → Path
+  | 0, _ => []
+  | n + 1, q => if q.isEmpty then [] else if (ch.lookup q).isSome then q else cacheUp ch n q.dropLast
+
+/-- coming back down from a node with known value `v` (at path `pre`) along `rest`, inserting every computed node -/
+def cacheDown : Tree T → V × V → Path → Path → Cache V → Option ((V × V) × Cache V)
+  | _, v, _, [], ch => some (v, ch)
+  | Tree.leaf _ _, _, _, _ :: _, _ => none
+  | Tree.node s e m l r, v, pre, b :: rest, ch =>
+    let v' := o.bridge s m e (!b) v (o.noise pre false) (o.noise pre true)
+    cacheDown (if b then r else l) v' (pre ++ [b]) rest (ch.insert (pre ++ [b]) v')
+
 /-- `_increment_and_space_time_levy_area` with the cache: walk up to the first cached ancestor (or the top), then come
 back down inserting every computed node.  Returns the value and the new cache. -/
 def cachedValue (t : Tree T) (top : V × V) (ch : Cache V) (p : Path) : Option ((V × V) × Cache V) :=
-  -- find the longest proper-or-equal prefix that is cached (the empty path = top is always "cached")
-  let rec up (n : Nat) (q : Path) : Path :=
-    match n with
-    | 0 => []
-    | n + 1 => if q.isEmpty then [] else if (ch.lookup q).isSome then q else up n q.dropLast
-  let q := up (p.length + 1) p
+  let q := cacheUp ch (p.length + 1) p
   let start : Option (V × V) := if q.isEmpty then some top else ch.lookup q
   match start, t.get? q with
-  | some v0, some _ =>
-    -- descend from q to p
-    let rec down (sub : Tree T) (v : V × V) (pre rest : Path) (ch : Cache V) : Option ((V × V) × Cache V) :=
-      match rest, sub with
-      | [], _ => some (v, ch)
-      | _ :: _, Tree.leaf _ _ => none
-      | b :: rest', Tree.node s e m l r =>
-        let v' := o.bridge s m e (!b) v (o.noise pre false) (o.noise pre true)
-        down (if b then r else l) v' (pre ++ [b]) rest' (ch.insert (pre ++ [b]) v')
-    match t.get? q with
-    | some sub => down sub v0 q (p.drop q.length) ch
-    | none => none
+  | some v0, some sub => cacheDown o sub v0 q (p.drop q.length) ch
   | _, _ => none
+
+/-- values of the located pieces, left to right, threading the cache and aggregating -/
+def foldPieces (t : Tree T) (top : V × V) (ta : T) : Cache V → V × V → List Path → Option ((V × V) × Cache V)
+  | ch, acc, [] => some (acc, ch)
+  | ch, acc, p :: more =>
+    match cachedValue o t top ch p, t.get? p with
+    | some (v, ch'), some nd => foldPieces t top ta ch' (o.agg ta acc nd.s nd.e v) more
+    | _, _ => none
 
 end values
 
@@ -259,28 +264,29 @@ structure Arith (T : Type) where
 section obj
 variable {T V : Type} (c : Cfg T) (o : Ops T V) (a : Arith T)
 
+/-- the explicit-stack refinement loop of `_create_dependency_tree` with piece length `pl` -/
+def depGo (fuel : Nat) (pl : T) : Nat → Tree T → List Path → Option (Tree T)
+  | _, t, [] => some t
+  | 0, _, _ :: _ => none
+  | n + 1, t, p :: rest =>
+    match t.get? p with
+    | none => none
+    | some nd =>
+      if c.lt pl (a.sub nd.e nd.s) then
+        let m := c.rnd (a.mid2 nd.s nd.e)
+        if c.lt nd.s m && c.lt m nd.e then
+          match loc c fuel t p nd.s m with
+          | none => none
+          | some (t', _, _) => depGo fuel pl n t' ((p ++ [false]) :: (p ++ [true]) :: rest)
+        else depGo fuel pl n t rest
+      else depGo fuel pl n t rest
+
 /-- `_create_dependency_tree(dt)` (iterative version).  Returns the new state. -/
 def depTree (fuel : Nat) (st : State T V) (dt : T) : Option (State T V) :=
   let cs := match st.cacheSize with | none => 100 | some n => max (min n 100) 1
   let treeDt := a.tmin st.treeDt dt
   let pl := a.piece treeDt cs
-  let rec go (n : Nat) (t : Tree T) (stack : List Path) : Option (Tree T) :=
-    match n, stack with
-    | _, [] => some t
-    | 0, _ => none
-    | n + 1, p :: rest =>
-      match t.get? p with
-      | none => none
-      | some nd =>
-        if c.lt pl (a.sub nd.e nd.s) then
-          let m := c.rnd (a.mid2 nd.s nd.e)
-          if c.lt nd.s m && c.lt m nd.e then
-            match loc c fuel t p nd.s m with
-            | none => none
-            | some (t', _, _) => go n t' ((p ++ [false]) :: (p ++ [true]) :: rest)
-          else go n t rest
-        else go n t rest
-  match go fuel st.tree [[]] with
+  match depGo c a fuel pl fuel st.tree [[]] with
   | none => none
   | some t => some { st with tree := t, treeDt := treeDt }
 
@@ -323,18 +329,10 @@ def call (fuel : Nat) (st : State T V) (ta tb : T) : Option (State T V × Ans V)
       | [] => none
       | p0 :: prest =>
         let last := ps.getLast?.getD p0
-        -- values, left to right, threading the cache
-        let rec fold (ch : Cache V) (acc : V × V) (rest : List Path) : Option ((V × V) × Cache V) :=
-          match rest with
-          | [] => some (acc, ch)
-          | p :: more =>
-            match cachedValue o tree' st1.top ch p, tree'.get? p with
-            | some (v, ch'), some nd => fold ch' (o.agg ta acc nd.s nd.e v) more
-            | _, _ => none
         match cachedValue o tree' st1.top st1.cache p0 with
         | none => none
         | some (v0, ch0) =>
-          match fold ch0 v0 prest with
+          match foldPieces o tree' st1.top ta ch0 v0 prest with
           | none => none
           | some (wh, ch') =>
             some ({ st1 with tree := tree', last := last, cache := ch' },
